@@ -51,13 +51,14 @@ type CallRet struct {
 }
 
 type readScript struct {
-	chunks  []int
-	cut     int // -1 none
-	fault   int // -1 none
-	withEOF bool
-	withErr bool
-	ferr    error // error value of the fault (nil: the harness's own)
-	withLen bool  // the reader also has a Len() method, like bytes.Reader
+	chunks   []int
+	cut      int // -1 none
+	fault    int // -1 none
+	withEOF  bool
+	withErr  bool
+	ferr     error // error value of the fault (nil: the harness's own)
+	withLen  bool  // the reader also has a Len() method, like bytes.Reader
+	withSeek bool  // the reader also implements io.Seeker, like *os.File
 }
 
 var plain = readScript{cut: -1, fault: -1}
@@ -123,6 +124,9 @@ func (p *Profile) runCall(id int, api string, input []byte, rs readScript, opts 
 	var r io.Reader = sr
 	if rs.withLen {
 		r = lenReader{sr}
+	}
+	if rs.withSeek {
+		r = seekReader{sr}
 	}
 	c.Ret.Files = []*FileProj{}
 	c.Ret.Hdr = []HdrProj{}
